@@ -7,5 +7,6 @@ SPECIFICATION Spec
 CONSTRAINT Bound
 INVARIANT Inv
 INVARIANT ByNameOK
+INVARIANT VerifyOK
 PROPERTY FreshOK
 PROPERTY OrderOK
